@@ -216,7 +216,7 @@ def attribute(devs, c, quirks=ALLQ, scripts=None):
     if not devs:
         return []
     obs = scripts if scripts is not None else [observed_script(d) for d in devs]
-    runs = [[q] for q in quirks] + [list(quirks)]
+    runs = [[]] + [[q] for q in quirks] + [list(quirks)]
     got, res = trace_run([(qs, o) for o in obs for qs in runs], c, tag="sqltx-attr")     # one JVM for all (deviation, quirk set) pairs
     if res.violation or res.postcondition_failed:
         raise MachineryFault("TraceSQLTx attribution run: %s\n%s" % (res.violation, res.out[-1500:]))
@@ -227,7 +227,12 @@ def attribute(devs, c, quirks=ALLQ, scripts=None):
         for ri, qs in enumerate(runs):
             r = got.get(b * len(runs) + ri)
             if r and not r["dead"] and not r["mism"] and len(r["steps"]) == nsteps:
-                if len(qs) == 1:
+                if not qs:
+                    # the design itself explains what the engine did: the expectation handed to the harness was wrong
+                    if not os.environ.get("VERIF_SELFTEST"):
+                        raise MachineryFault("deviation reported for behaviour that the design model explains (inconsistent expectations): %s" % d["text"][:600])
+                    who = ["selftest-corrupted-expectation"]
+                elif len(qs) == 1:
                     who = qs
                 else:
                     step_tags = (r["steps"][-1].get("tags") or []) if r["steps"] else []
